@@ -105,6 +105,34 @@ def scoping_family(r, ledger):
     return stmts, extra
 
 
+def several_word_commands_family(r, ledger):
+    """Two to four different words, each with a command of its own inside (plus, sometimes, a top-level command
+    and a second command in the same word): the command run inside a word must be that word's own, whatever
+    number it has in the script as a whole."""
+    n = r.randint(2, 4)
+    pres = r.sample(['--user=', '--host=', '--port=', 'key:', '-D'], n)
+    words, extra = [], []
+    for pre in pres:
+        c = ledger_cmd(ledger, r, True)
+        inner = c
+        if r.random() < 0.3:
+            inner = gast.alt(c, gast.lit('fixed'))
+        elif r.random() < 0.2:
+            inner = gast.alt(c, ledger_cmd(ledger, r, True))
+        words.append(('word', (gast.lit(pre), inner)))
+        cand = ledger.outputs[c[1]][0].split('\t')[0]
+        extra += [[pre], [pre + cand[:1]], [pre + cand, ''], [pre + 'zz', '']]
+    body = gast.alt(*words)
+    tail = gast.alt(gast.lit('start'), gast.lit('stop'))
+    stmts = [gast.call('cmd', gast.seq(body, tail))]
+    if r.random() < 0.5:
+        stmts.append(gast.call('cmd', gast.seq(gast.lit('top'), ledger_cmd(ledger, r, False), gast.lit('end'))))
+        extra += [['top', ''], ['top', 'k']]
+    r.shuffle(stmts)
+    r.shuffle(extra)
+    return stmts, extra[:14]
+
+
 def inword_chain_case(r, acc, origin):
     """Commands inside a word whose candidates include a prefix chain (v1 / v1.0): the longest candidate must be
     consumed; only the maximal candidates are judged (a shorter one that is a prefix of a longer one is the
@@ -346,6 +374,11 @@ def run_job(job, acc):
     ledger = ProbeLedger()
     if s % 7 == 3:
         inword_chain_case(r, acc, 'in-word prefix chain seed=%d' % s)
+        return
+    if s % 5 == 1:
+        stmts, extra = several_word_commands_family(r, ledger)
+        acc.count('several_word_commands_grammars')
+        check_grammar(stmts, ledger, r, max(6, budget // 3), acc, 'several words with commands seed=%d' % s, extra)
         return
     if s % 5 == 0:
         stmts, extra = scoping_family(r, ledger)
